@@ -278,7 +278,21 @@ type Average struct {
 
 type Asterisk struct{}
 
+// Parse parses one statement. The statement may be terminated by a semicolon;
+// anything after that is a syntax error.
 func (p *Parser) Parse() (interface{}, error) {
+	stmt, err := p.statement()
+	if err != nil {
+		return stmt, err
+	}
+	p.match(SEMICOLON)
+	if p.Cur().Type != EOF {
+		return stmt, syntaxErr(p.Cur())
+	}
+	return stmt, nil
+}
+
+func (p *Parser) statement() (interface{}, error) {
 	cur := p.Cur()
 	p.Advance()
 	switch cur.Type {
